@@ -44,13 +44,16 @@ def _compile_ordering(tree, reverse_prefix):
     ordering = odict()
     for (rule_id, attrs) in tree.items():
         if attrs["type"] == "normal":
+            # the (?i) marker is a flag of the whole row, not its first word
+            flag = "(?i)" if "(?i)" in attrs["row"] else ""
+            row = attrs["row"].replace("(?i)", "").strip()
             ordering[rule_id] = {
                 "attrs": {
                     "direct_regexp": syntax.compile_row_regexp(attrs["row"]),
                     "reverse_regexp": (
-                        syntax.compile_row_regexp(reverse_prefix + " " + attrs["row"])
-                        if not attrs["row"].startswith(reverse_prefix + " ") else
-                        syntax.compile_row_regexp(re.sub(r"^%s\s+" % (reverse_prefix), "", attrs["row"]))
+                        syntax.compile_row_regexp(flag + reverse_prefix + " " + row)
+                        if not row.startswith(reverse_prefix + " ") else
+                        syntax.compile_row_regexp(flag + re.sub(r"^%s\s+" % (reverse_prefix), "", row))
                     ),
                     "order_reverse": attrs["params"]["order_reverse"],
                     "global": attrs["params"]["global"],
